@@ -16,7 +16,8 @@ def lex_line(line, lineno, triple_mode=False):
     while i < n:
         c = line[i]
         if c in BLANKS:
-            i += 1
+            # skip the whole run of blanks at once
+            i = n - len(line[i:].lstrip(BLANKS))
             continue
         start = i
         if c == '#':
@@ -110,21 +111,20 @@ def lex_line(line, lineno, triple_mode=False):
 def split_lines(s):
     """Only LF, CRLF, CR end a line."""
     lines = []
-    cur = []
-    i = 0
-    while i < len(s):
-        c = s[i]
-        if c == '\r':
-            if i + 1 < len(s) and s[i + 1] == '\n':
-                i += 1
-            lines.append(''.join(cur)); cur = []
-        elif c == '\n':
-            lines.append(''.join(cur)); cur = []
+    start = 0
+    while True:
+        a = s.find('\n', start)
+        b = s.find('\r', start)
+        if a == -1 and b == -1:
+            lines.append(s[start:])
+            return lines
+        if b == -1 or (a != -1 and a < b):
+            k, nxt = a, a + 1
         else:
-            cur.append(c)
-        i += 1
-    lines.append(''.join(cur))
-    return lines
+            k = b
+            nxt = b + 2 if s.startswith('\n', b + 1) else b + 1
+        lines.append(s[start:k])
+        start = nxt
 
 
 def lex(s_or_lines, triple_mode=False):
